@@ -107,4 +107,42 @@ theorem prepIntArrVals_safe (n : Nat) (v : Arr Int) (mv : Mask) (am : Bool) (i :
     | arr a => exact unusedIndex_safe n _ hn
   · exact normIdx_emod_some n _ hn
 
+/-- **integer entry.**  An unmasked in-range integer is handed to NumPy as the same element NumPy
+    itself would pick (negative values normalised) and leaves the post-mask alone; a masked or
+    out-of-range integer is replaced by the safe index 0 and masks the whole result. -/
+theorem int_entry_exact (n : Nat) (k : Int) (m : Bool) :
+    (intFlag n k m = false →
+      ∃ j, prepInt n k m = (.int j, .keep) ∧ normIdx n j = normIdx n k) ∧
+    (intFlag n k m = true → prepInt n k m = (.int 0, .setTrue)) := by
+  cases m with
+  | true => simp [intFlag, prepInt]
+  | false =>
+    by_cases h1 : 0 ≤ k ∧ k < n
+    · have e : k % (n:Int) = k := Int.emod_eq_of_lt h1.1 h1.2
+      have h0 : ¬ k < 0 := by omega
+      have h3 : ¬ (n:Int) ≤ k := by omega
+      constructor
+      · intro _; exact ⟨k, by simp [prepInt, h0, h3, e], rfl⟩
+      · intro h; simp [intFlag, normIdx, h1] at h
+    · by_cases h2 : k < 0 ∧ -k ≤ n
+      · have e : k % (n:Int) = k + n := by
+          have : k % (n:Int) = (k + n) % n := by simp
+          rw [this]; exact Int.emod_eq_of_lt (by omega) (by omega)
+        have h3 : ¬ (k + n < 0) := by omega
+        have h4 : ¬ ((n:Int) ≤ k + n) := by omega
+        constructor
+        · intro _
+          refine ⟨k + n, by simp [prepInt, h2.1, h3, h4, e], ?_⟩
+          have h5 : 0 ≤ k + (n:Int) ∧ k + n < n := by omega
+          simp [normIdx, h1, h2, h5]
+        · intro h; simp [intFlag, normIdx, h1, h2] at h
+      · constructor
+        · intro h; simp [intFlag, normIdx, h1, h2] at h
+        · intro _
+          by_cases h4 : k < 0
+          · have : k + n < 0 := by omega
+            simp [prepInt, h4, this]
+          · have : (n:Int) ≤ k := by omega
+            simp [prepInt, h4, this]
+
 end PMV.Index
